@@ -2,6 +2,7 @@ SPECIFICATION Spec
 CONSTANTS
   MaxSelSoup = 5
   RunLens = {40, 300}
+  WideLens = {1200}
   MaxToks = 2
   Depths = {1, 2, 3, 5, 8, 12, 20, 50, 100}
   PairContexts = {"sheet", "decl-block", "decl-value", "selector", "media-rules", "import-prelude", "func-arg", "media-prelude", "page-block", "after-charset"}
